@@ -33,11 +33,20 @@ AOL_RULE = ("aol profile: histories of blocks over 4 funded accounts plus key-le
             "extra or swapped signers and unaffordable fees; after every block the aol store dump and sampled Record/Topic/Writer "
             "queries are compared with the extracted model; monitors run on the implementation alone. A history is non-trivial if it "
             "contains at least one accepted and one rejected transaction; distinct = distinct history texts")
-DID_RULE = ("did profile: 3 DIDs x 4 secp256k1 keys; documents in 10 shapes (key under authentication by reference / dedicated, only "
+DID_RULE = ("did profile: 5 DIDs x 4 secp256k1 keys; documents in 12 shapes (key under authentication by reference / dedicated, only "
             "under assertionMethod, only as verification method, Ed25519 type, rich document, malformed ids/base58/relationships, "
             "no authentication); create/update(rotation)/deactivate with real signatures, wrong sequences, signatures over other "
             "content, tampered/empty signatures, did field != document id, empty-id and missing documents, verbatim replays through "
-            "other relayers; after every block the did store dump and Query/DID of every DID are compared with the extracted model; "
+            "other relayers, another method id of the stored document named, keys the stored document lists without giving them control "
+            "signing in the name of the controlling method, DID fields that extend or shorten the document id; two further DIDs of 42 and "
+            "33 characters (the first a proper prefix of DID 0); 60% of the histories start from DID genesis entries (GD: documents with "
+            "sequences 1, 254..257, 511, 2^16-1, 2^16, 2^32-1, 2^32, 2^63-1, 2^64-2; tombstones; entries the validation must refuse: a "
+            "document about another identifier, an empty document with sequence 0, a key that is not a DID, malformed documents); after "
+            "every block the did store dump, Query/DID of every DID and three did_base64 fields sent verbatim (padded, unpadded, URL "
+            "alphabet, line break inside, trailing character, truncated, a longer identifier) are compared with the extracted model "
+            "(Base/Base64.v decodes as Go's StdEncoding does); monitors: proof by a current authentication key over content and stored "
+            "sequence (C03), the same proof never twice, sequence steps, proof over another sequence, read reports the stored sequence "
+            "(C04), tombstones (C05), key = document id, read returns a document about the requested DID, foreign proof (C11); "
             "non-trivial = at least one accepted and one rejected transaction")
 
 
